@@ -425,6 +425,7 @@ func main() {
 			run.Count("midrun_gathers", 1)
 		}
 	}()
+	quietWait := 15 * time.Second
 	for b := 0; b < nBatches; b++ {
 		if !run.Want(b) {
 			continue
@@ -454,7 +455,7 @@ func main() {
 		t0 := time.Now()
 		quiet := false
 		var mfs map[string]*dto.MetricFamily
-		for time.Since(t0) < 15*time.Second {
+		for time.Since(t0) < quietWait {
 			w.p.Transport.CloseIdleConnections()
 			mfs = w.p.Gather()
 			if lib.MetricSum(mfs, "fw_listener_cx_active", nil) == 0 && lib.MetricSum(mfs, "fw_dialer_cx_active", nil) == 0 && lib.MetricSum(mfs, "fw_http_requests_in_flight", nil) == 0 {
@@ -473,6 +474,7 @@ func main() {
 		}
 		wit := map[string]any{"batch": b, "kinds": led.kinds, "in_flight": byLabels(mfs, "fw_http_requests_in_flight", "method"), "listener_cx_active": lib.MetricSum(mfs, "fw_listener_cx_active", nil), "dialer_cx_active": byLabels(mfs, "fw_dialer_cx_active", "host")}
 		if !quiet {
+			quietWait = 1500 * time.Millisecond // a leaked gauge stays leaked: do not wait 15 s per later batch
 			if !hb.Healthy(t0) {
 				run.Inconclusive("no quiescence with unhealthy heartbeat")
 				continue
